@@ -6,6 +6,7 @@ W=/tmp/seedrepo-$$; B=/tmp/seedbuild-$$
 git -C /repo worktree add -q --detach $W HEAD || exit 2
 # (a seed written against an older tree: three-way merge on the blobs it names; a conflict means the code it changed is gone)
 ( cd $W && { git apply "$D" 2>/dev/null || { git reset -q --hard && git apply -3 "$D" >/dev/null 2>&1 && git reset -q; }; } ) || { echo "exit=stale (patch does not apply to the current tree)"; git -C /repo worktree remove --force $W; exit 3; }
+( cd $W && GOFLAGS=-mod=mod GOPROXY=off GOSUMDB=off GOTOOLCHAIN=local go build ./... >/dev/null 2>&1 ) || { echo "exit=stale (the patched tree does not compile any more)"; git -C /repo worktree remove --force $W; exit 3; }
 cd /verif && VERIF_REPO=$W VERIF_BUILD=$B VERIF_OUT=/tmp/seedout VERIF_TIER=$T ./check $P > /tmp/try_seed_$P.log 2>&1; rc=$?
 git -C /repo worktree remove --force $W; rm -rf $B
 echo "exit=$rc"; grep -c VIOLATION /tmp/try_seed_$P.log; grep -A1 VIOLATION /tmp/try_seed_$P.log | grep "like cases" | cut -c1-260 | head -8; tail -1 /tmp/try_seed_$P.log
